@@ -59,6 +59,9 @@ CHECKS = {
     "C18": dict(level="model_checking", ref="7/C18", technique="TLA+ spec (Health.tla) checked by TLC; sequential histories, exhaustive lock-level schedules and WaitForReady scripts on the real code validated by TLC (HealthTrace.tla)",
                 text="TLC: every interleaving of status requests with registrations/ready-marks yields internally consistent, linearizable responses. All op sequences up to length 4 (6 thorough) over 3 names are replayed through the real handler; all schedules of four concurrent programs are executed on the real code; 120 WaitForReady scripts.",
                 note="Trusted: TLC, the controlled scheduler; WaitForReady observed with a 2 ms poll interval and 150 ms settle times."),
+    "C12": dict(level="model_checking", ref="7/C12", technique="TLA+ spec of chunked pipe reading (Framing.tla) checked by TLC incl. termination; every TLC-enumerated scenario (stream x cuts x call-back error position) realised through a real FIFO and validated by TLC (FramingTrace.tla)",
+                text="TLC: for every stream over {ordinary, binary, longer-than-buffer, delimiter} up to the bound, every partition into write calls, every read granularity and every call-back error position only whole terminated records are delivered, once, in order; delivery stops at the first error; EOF is returned. The same scenarios are written to a real FIFO (writer paced by FIONREAD so partial records are really seen) and the real Ingest's call-backs/return are compared by TLC.",
+                note="Trusted: TLC; the symbol-to-bytes concretisation and decoding in harness/cmd/framing; FIONREAD pacing. Exhaustive up to stream length 4 (quick) / 5 (thorough) plus sampled longer streams."),
 }
 
 ALL = ["C%02d" % i for i in range(1, 21)]
